@@ -88,6 +88,26 @@ func c20Actions(args []string) error {
 					stale.Action = json.RawMessage(strings.ReplaceAll(strings.ReplaceAll(string(tc.Action), "b7cf0d83-f1c9-411c-96fd-c511a4cfa86d", "b7cf0d83-f1c9-411c-96fd-c511a4cf0000"), `"Testers"`, `"TESTERS"`))
 					jobs = append(jobs, job{fmt.Sprintf("%s#%d+stale-group-uuid", strings.TrimPrefix(fn, "/repo/"), i), assetsJSON, stale, isRoute, "", false})
 				}
+				// lists of references (groups, labels ...) with a variable reference (name_match) put in FRONT of the fixed ones
+				if !isRoute {
+					var am map[string]any
+					if json.Unmarshal(tc.Action, &am) == nil {
+						changed := false
+						for k, v := range am {
+							if l, ok := v.([]any); ok && len(l) > 0 {
+								if first, ok := l[0].(map[string]any); ok && first["uuid"] != nil && first["name"] != nil {
+									am[k] = append([]any{map[string]any{"name_match": "@(\"no such \" & contact.name)"}}, l...)
+									changed = true
+								}
+							}
+						}
+						if changed {
+							vf := tc
+							vf.Action = json.RawMessage(mustJSON(am))
+							jobs = append(jobs, job{fmt.Sprintf("%s#%d+variable-first", strings.TrimPrefix(fn, "/repo/"), i), assetsJSON, vf, isRoute, "", false})
+						}
+					}
+				}
 				if !isRoute && strings.Contains(string(tc.Action), `"send_msg"`) && tc.Localization == nil {
 					jobs = append(jobs, job{fmt.Sprintf("%s#%d+translated-only", strings.TrimPrefix(fn, "/repo/"), i), assetsJSON, tc, isRoute, "", true})
 				}
